@@ -229,6 +229,10 @@ func funcFieldRule(c *Ctx, r *Report, rule string, reach map[*ssa.Function]bool)
 		fns = append(fns, fn)
 	}
 	sortFuncs(fns)
+	// decided by g5Guard (ip_g5.go): dominating non-nil test (direct or through a predicate
+	// function) or early exit clause, in the function itself or at every call site of the
+	// unexported helper that contains the call
+	guard := &g5Guard{c: c}
 	for _, fn := range fns {
 		for _, ci := range allCalls(fn) {
 			call := ci.Common()
@@ -244,42 +248,7 @@ func funcFieldRule(c *Ctx, r *Report, rule string, reach map[*ssa.Function]bool)
 			}
 			fieldPath := pathOf(ld)
 			o := r.Add(rule, fnName(fn), "call through field "+c.exprAt(fn, ci.Pos()), c.pos(ci.Pos()))
-			guarded := false
-			here := condsAt(ci.Block())
-			for _, cd := range here {
-				if is, isNil := nilTest(cd, ld); is && !isNil {
-					guarded = true
-				}
-				if b, ok := cd.V.(*ssa.BinOp); ok && isNilConst(b.Y) && pathOf(b.X) == fieldPath && ((b.Op.String() == "!=") == cd.Truth) {
-					guarded = true
-				}
-			}
-			if !guarded {
-				for _, g := range exitGuardsCached(fn) {
-					if !g.Head.Dominates(ci.Block()) || g.Head == ci.Block() || g.Exit.Dominates(ci.Block()) || insideChain(g, ci.Block()) {
-						continue
-					}
-					nilIdx, allKnown := -1, true
-					for i, cj := range g.Conj {
-						if b, ok := cj.V.(*ssa.BinOp); ok && isNilConst(b.Y) && pathOf(b.X) == fieldPath && ((b.Op.String() == "==") == cj.Truth) {
-							nilIdx = i
-							continue
-						}
-						known := false
-						for _, h := range here {
-							if pathOf(h.V) == pathOf(cj.V) && h.Truth == cj.Truth {
-								known = true
-							}
-						}
-						if !known {
-							allKnown = false
-						}
-					}
-					if nilIdx >= 0 && allKnown {
-						guarded = true
-					}
-				}
-			}
+			guarded, _ := guard.nonNil(ci, ld, nil, nil, 0)
 			if guarded {
 				o.OK("a nil %s is excluded on every path to the call (dominating test or early exit clause)", fieldPath)
 			} else {
